@@ -1627,6 +1627,20 @@ static int cfg_parse_internal(cfg_t *cfg, int level, int force_state, cfg_opt_t 
 				goto error;
 
 			cfg->line = val->section->line;
+
+			/* a section may end in another source than it began in (an
+			 * included file that closes it, or that left it open for
+			 * the including one): go on where it ended */
+			if (val->section->filename &&
+			    (!cfg->filename || strcmp(cfg->filename, val->section->filename))) {
+				char *fn = strdup(val->section->filename);
+
+				if (!fn)
+					goto error;
+				free(cfg->filename);
+				cfg->filename = fn;
+			}
+
 			if (opt && opt->validcb && (*opt->validcb) (cfg, opt) != 0)
 				goto error;
 			state = 0;
